@@ -648,10 +648,17 @@ class Blockwise(ArrayExpr):
                     new_args.extend([arg, arg_ind])
                 else:
                     arg_slices = []
-                    for dim_idx in arg_ind:
+                    for arg_axis, dim_idx in enumerate(arg_ind):
                         try:
                             out_pos = out_ind.index(dim_idx)
-                            arg_slices.append(slice_index[out_pos])
+                            arg_slice = slice_index[out_pos]
+                            if arg.shape[arg_axis] == 1 and self.shape[out_pos] != 1:
+                                # A length-1 axis broadcasts against the output
+                                # axis: it stays whole unless nothing is selected.
+                                start, stop, step = arg_slice.indices(self.shape[out_pos])
+                                if len(range(start, stop, step)) > 0:
+                                    arg_slice = slice(None)
+                            arg_slices.append(arg_slice)
                         except ValueError:
                             arg_slices.append(slice(None))
 
